@@ -7,8 +7,8 @@ import numlib as nl
 from props import common
 
 ID = "C02"
-MODULES = ["Series", "SO2", "SE2", "Rn", "SO3", "SE3", "SE23", "Products"]
-LEAN_TARGETS = ["Props.C02"]
+MODULES = ["Series", "SO2", "SE2", "Rn", "SO3", "SE3", "SE23", "Products", "SE23P"]
+LEAN_TARGETS = ["Props.C02", "Props.C02S", "Props.C02SM"]
 ANCHORS = ["cyecca/lie/group_so3.py", "cyecca/lie/group_se2.py", "cyecca/lie/group_se3.py", "cyecca/lie/group_se23.py",
            "cyecca/lie/group_so2.py", "cyecca/lie/group_rn.py", "cyecca/lie/direct_product.py", "cyecca/symbolic.py"]
 MISSING = [
